@@ -187,8 +187,16 @@ def run(seed: int, params: dict, replay: dict | None = None) -> dict:
                 nxt = rng.choice(opts_)
                 if nxt in ("RETRY", "REROUTED"):
                     stats["probe.moved_to_requeued_status"] = stats.get("probe.moved_to_requeued_status", 0) + 1
+                refused = False
                 for st, app in env.apps.items():
-                    app.orchestrator.set_invocation_status(m["ids"][st], InvocationStatus[nxt], ctx)
+                    try:
+                        app.orchestrator.set_invocation_status(m["ids"][st], InvocationStatus[nxt], ctx)
+                    except Exception as e:  # noqa: BLE001
+                        # a legal step of the model is refused: the backend's invocation is not where the submissions left it
+                        refused = True
+                        viol.append({"signature": f"C07/{st}/state-diverged/{mode}", "message": f"step {step}: moving invocation #{i} {m['status']} -> {nxt} was refused ({type(e).__name__}: {str(e)[:160]}): an earlier submission handed out or altered an invocation it should not have"})
+                if refused:
+                    break
                 if m["status"] == "REGISTERED":
                     freed_keys.add(key_of(*m["args"]))
                 m["status"] = nxt
